@@ -13,8 +13,7 @@ EXPLANATION = (
     "the bytes removed from the expression equal the amount subtracted from every remaining span, so every remaining span still delimits the same text, "
     "and the returned prefix text is the one computed by invariant_text_prefix; (prefix) invariant_text_prefix appends text only for text-invariant "
     "tokens and stops at the last component boundary, over all invariance / boundary patterns of lists up to length 3 (4 in the thorough tier).  Not "
-    "decided: that the postfix *displays* as the right suffix when flags precede it (`(?i)/**` is sliced as `?i)/**`, `123/(?i)456/c*` loses its "
-    "flag): the parser's spans of flags are outside the token tree.")
+    "decided: that a flag among the popped tokens still applies to the displayed postfix (`a/(?i)b/c*` -> `c*`): flags are not tokens.")
 RULES = "C08.law (TABLE on a catalogue: languages of glob, prefix and postfix), C08.recompile (PROV), C08.unroot + C08.bytes (EFFECT), C08.prefix (TABLE)"
 
 
@@ -24,14 +23,16 @@ def tok(kind_leaf, start, length):
 
 
 def build(expr, pieces):
-    """pieces: list of (shape, text) concatenated into expr; returns token list with byte spans."""
+    """pieces: list of (shape, text) concatenated into expr; returns token list with byte spans.  A piece whose shape
+    is None is text that belongs to no token (a flag such as `(?i)`): it only advances the position."""
     toks = []
     raw = expr.encode()
     pos = 0
     for shape, text in pieces:
         b = text.encode()
         assert raw[pos:pos + len(b)] == b, (expr, pos, text)
-        toks.append(tok(T.leaf_kind(shape, "t%d" % len(toks)), pos, len(b)))
+        if shape is not None:
+            toks.append(tok(T.leaf_kind(shape, "t%d" % len(toks)), pos, len(b)))
         pos += len(b)
     assert pos == len(raw)
     return toks
@@ -41,7 +42,7 @@ def run(ctx):
     F = ctx.facts()
     R = ctx.report
     R.assume("token spans are the parser's byte offsets of the token's text in the expression (C17)")
-    R.undecided("the law outside the catalogue; the displayed postfix expression when flags precede the postfix")
+    R.undecided("the law outside the catalogue; flags of popped tokens are lost for the displayed postfix")
     c19.rule_pair(F, R)
     rule_partition(F, R)
     rule_prefix(F, R, 3 if ctx.tier == "quick" else 4)
@@ -60,6 +61,9 @@ def rule_partition(F, R):
         "愛/b/?": [("lit", "愛"), ("sep", "/"), ("lit", "b"), ("sep", "/"), ("one", "?")],
         "/**/x": [("tree-rooted", "/**/"), ("lit", "x")],
         "ab": [("lit", "ab")],
+        # the parser's span of a token includes a flag written in front of it (`(?i)*` is one capture span)
+        "(?i)/**/x": [("tree-rooted", "(?i)/**/"), ("lit-ci", "x")],
+        "a/(?i)*b": [("lit", "a"), ("sep", "/"), ("zom", "(?i)*"), ("lit-ci", "b")],
     }
     n = 0
     for expr, pieces in scenarios.items():
@@ -119,7 +123,9 @@ def rule_partition(F, R):
                     kind = strip(strip(o.fields["topology"]).fields["0"])
                     rooted = kind.variant == "Wildcard" and strip(kind.fields["0"]).variant == "Tree" and strip(strip(kind.fields["0"]).fields["has_root"]) is True
                     if i == 0 and rooted and not single:
-                        old_text = old_text[1:]   # the root separator is dissociated from the first remaining token
+                        # the root separator is dissociated from the first remaining token (a flag in front of it stays)
+                        k_ = old_text.index(b"/")
+                        old_text = old_text[:k_] + old_text[k_ + 1:]
                     if isinstance(new_expr, str):
                         new_text = new_expr.encode()[ns:ns + nl]
                         if new_text != old_text:
